@@ -112,6 +112,30 @@ def Repo.getEpoch (r : Repo) (id : Nat) : Option Rec × Repo :=
       | some x => (some x, { r with updates := r.updates ++ [x] })
       | none => (none, r)
 
+/-- `GroupStateRepository::resumption_secret` for a resumption PSK of this repository's OWN group: pending inserts
+(same "at or above the first pending id, no fall-through" rule as `get_epoch_mut`), then the update cache, then the
+storage — read-only, the update cache is not populated.  A PSK of ANOTHER group skips the two caches
+(`resumptionSecretOther`): the caches only hold epochs of the own group (fix F32). -/
+def Repo.resumptionSecret (r : Repo) (id : Nat) : Option Rec :=
+  match r.inserts with
+  | (min, _) :: _ =>
+    if id ≥ min then r.inserts[id - min]?
+    else
+      match r.updates.find? (·.1 == id) with
+      | some x => some x
+      | none => r.storedGet id
+  | [] =>
+    match r.updates.find? (·.1 == id) with
+    | some x => some x
+    | none => r.storedGet id
+
+/-- a resumption PSK of another group: the other group's stored records only (`other` = that group's table in the same
+storage) -/
+def Repo.resumptionSecretOther (r : Repo) (other : List Rec) (id : Nat) : Option Rec :=
+  match r.backend with
+  | .mem => memGet other id
+  | .sql => sqlGet other id
+
 /-- `write_to_storage` (epoch part): `failWrite` / `failKp` are the injected faults of the storage write
 and of the key-package deletion that follows it.  Returns the result and the repository afterwards. -/
 def Repo.write (r : Repo) (failWrite failKp : Bool) : Except Err Unit × Repo :=
